@@ -14,6 +14,8 @@ out = ["# Seeded changes and which quick checks catch them", "",
        "(expected for checks of OTHER properties that share the broken model part).", "",
        "| seeded change | breaks | confirmed | caught with failing input | caught, no failing input | silent |", "|---|---|---|---|---|---|"]
 for d in rows:
+    if d.get("kind") == "harmless-refactoring":
+        continue
     c = d.get("checks", {})
     a = sorted(d.get("caught_with_failing_input", []))
     b = sorted(set(d.get("caught_by", [])) - set(a))
@@ -21,5 +23,9 @@ for d in rows:
     target = d["property"]
     mark = lambda l: ", ".join(f"**{x}**" if x == target else x for x in l) or "–"
     out.append(f"| {d['name']} | {target} | {'yes' if d['confirmed'] else 'NO'} | {mark(a)} | {mark(b)} | {len(s)} checks{' incl. **' + target + '**' if target in s else ''} |")
+out += ["", "## Behaviour-preserving refactorings (every check must stay silent)", "", "| refactoring | lines changed | tests | checks run | alarms |", "|---|---|---|---|---|"]
+for d in rows:
+    if d.get("kind") == "harmless-refactoring":
+        out.append(f"| {d['name']} | {d['lines_changed']} | {d['tests_with_change'].split(' in ')[0]} | {len(d['checks'])} | {', '.join(d['false_alarms']) or 'none'} |")
 open("/verif/seeded/TABLE.md", "w").write("\n".join(out) + "\n")
 print("\n".join(out))
